@@ -171,6 +171,7 @@ class Arr2(Val):
     proto: object = None
     kwargs: dict = field(default_factory=dict)
     node: object = None
+    rows: dict = field(default_factory=dict)  # key(level NF) -> Vec: rows written with a constant level index
 
 
 @dataclass
